@@ -34,7 +34,7 @@ inductive Out (α : Type) where
   | ok (a : α)
   | err (e : Err)
   | panic (p : Panic)
-  deriving Repr
+  deriving Repr, DecidableEq
 
 namespace Out
 def bind {α β : Type} (x : Out α) (f : α → Out β) : Out β :=
